@@ -285,7 +285,7 @@ theorem C01_build_decode' (ext : Ext) (fields : List Field) (rows : List SVal) (
     simp only [hdecr, List.getElem_map, List.getElem_range, Build.rowAt]
 
 /-- **C03 — `C03_wf` with `hsafe` weakened.**  Every array `to_marrow` returns is a well-formed array of its field
-(`Spec.WF`), one array per field, every array of `rows.length` rows — for schemas that are `Safe` (the old theorem) OR
+(`Spec.WFS`), one array per field, every array of `rows.length` rows — for schemas that are `Safe` (the old theorem) OR
 `coveredF` (every dictionary has integer keys and Utf8/LargeUtf8 values: then the placeholder keys hidden below a null
 designate the dummy value `""` that `DictionaryUtf8Builder::into_array` appends, `finish` has that branch, and the
 finished dictionary is well formed).  What is still excluded: a schema that is neither — a dictionary with
@@ -298,7 +298,7 @@ theorem C03_wf' (ext : Ext) (fields : List Field) (rows : List SVal) (arrs : Lis
     (h : toMarrow ext fields rows = .ok arrs) :
     arrs.length = fields.length ∧
     ∀ (j : Nat) (f : Field) (a : Arr), fields[j]? = some f → arrs[j]? = some a →
-      WF f a = true ∧ (decodeAll a).length = rows.length := by
+      WFS f a = true ∧ (decodeAll a).length = rows.length := by
   rcases hsafe with hsafe | hcov
   · exact Props.C03.C03_wf ext fields rows arrs hschema hsafe hext hrows h
   · have hwfh : ∀ root, runRows ext fields rows = .ok root → WFH root ∧ (dec root).length = rows.length := by
@@ -399,7 +399,7 @@ example : ∀ arrs, toMarrow {} exUnsafeFields exUnsafeRows = .ok arrs → arrs.
 /-- … as does `C03_wf'` (through its second alternative) -/
 example : ∀ arrs, toMarrow {} exUnsafeFields exUnsafeRows = .ok arrs → arrs.length = exUnsafeFields.length ∧
     ∀ (j : Nat) (f : Field) (a : Arr), exUnsafeFields[j]? = some f → arrs[j]? = some a →
-      WF f a = true ∧ (decodeAll a).length = exUnsafeRows.length := by
+      WFS f a = true ∧ (decodeAll a).length = exUnsafeRows.length := by
   intro arrs h
   refine C03_wf' {} exUnsafeFields exUnsafeRows arrs ?_ (Or.inr (by decide)) ?_ ?_ h
   · simp [exUnsafeFields, Lemmas.C03.SchemaOKF, Lemmas.C03.SchemaOK, Lemmas.C03.SchemaOKFs]
